@@ -17,7 +17,7 @@ Invariants / history checks:
 import os
 import sys
 
-from sim import core, seams, screens, registry
+from sim import core, seams, screens, registry, simpool
 
 ID = "C20"
 HISTORY_DEPENDENCE_IS_VIOLATION = True
@@ -58,25 +58,25 @@ def warm():
 
 def sizes(tier):
     if tier == "thorough":
-        return {"runs": 60000, "block": 100, "det": 64, "det_fresh": 8, "timeout": 3300}
-    return {"runs": 1600, "block": 25, "det": 24, "det_fresh": 6, "timeout": 900}
+        return {"runs": 60000, "block": 100, "det": 64, "det_fresh": 8, "timeout": 3300, "order": 4000}
+    return {"runs": 1600, "block": 25, "det": 24, "det_fresh": 6, "timeout": 900, "order": 200}
 
 
 # ----------------------------------------------------------------------------------------------
 # plan generation
 # ----------------------------------------------------------------------------------------------
 DTYPES = {"img2d": ["float64", "float64", "float64", "float32", "int64"], "img3d": ["float64", "float64", "float32"],
-          "cplx2d": ["complex128"], "vec_inc": ["float64"], "vec_pos": ["float64", "float64", "float32"], "mask2d": ["float64", "int64"],
+          "cplx2d": ["complex128", "complex128", "complex64"], "cplx3d": ["complex128"], "vec_inc": ["float64"], "vec_pos": ["float64", "float64", "float32"], "mask2d": ["float64", "int64"],
           "pos": ["float64"], "sep": ["float64"], "slopes3": ["float64"], "frames": ["float64", "float32"], "cov32": ["float32"], "r32": ["float32"]}
 
 
 def gen_heap(rng, z):
     heap = []
-    counts = {"img2d": 3, "img3d": 2, "cplx2d": 1, "vec_inc": 1, "vec_pos": 3, "mask2d": 2, "pos": 2, "sep": 1, "slopes3": 1, "frames": 1,
+    counts = {"img2d": 3, "img3d": 2, "cplx2d": 2, "cplx3d": 1, "vec_inc": 1, "vec_pos": 3, "mask2d": 2, "pos": 2, "sep": 1, "slopes3": 1, "frames": 1,
               "cov32": 1, "r32": 1}
     for cat in registry.CATS:
         for k in range(counts[cat]):
-            layout = rng.weighted([("C", 6), ("F", 1.5), ("strided", 1.5)]) if cat in ("img2d", "img3d", "cplx2d", "mask2d", "pos", "vec_pos") else "C"
+            layout = rng.weighted([("C", 6), ("F", 1.5), ("strided", 1.5)]) if cat in ("img2d", "img3d", "cplx2d", "cplx3d", "mask2d", "pos", "vec_pos") else "C"
             heap.append({"cat": cat, "dtype": rng.choice(DTYPES[cat]), "layout": layout, "ro": rng.chance(0.15), "fill": rng.randrange(10 ** 6)})
     # aliasing: one img2d is frame k of a stack, one img2d shares the buffer of another (overlapping views)
     stacks = [i for i, h in enumerate(heap) if h["cat"] == "img3d"]
@@ -87,7 +87,7 @@ def gen_heap(rng, z):
 
 
 def gen_call(rng, heap, z, by_cat):
-    e = rng.choice(registry.ENTRIES)
+    e = rng.weighted([(x, x["weight"]) for x in registry.ENTRIES])
     a = {}
     for param, cats in e["arrays"]:
         cat = rng.choice(cats)
@@ -176,7 +176,9 @@ def gen_plan(rng, tier, index=0):
                 a[param] = rng.choice(by_cat[cat])
         steps.insert(rng.randrange(len(steps) + 1), {"op": "batch", "f": be["name"], "a": a, "s": be["scalars"](rng, z), "amb": rng.randrange(2 ** 31),
                                                      "order": rng.choice(["stack_first", "items_first"])})
-    return {"z": z, "heap": heap, "entropy": rng.randrange(2 ** 62), "steps": steps}
+    from sim.worlds import c03
+    pool = {"mode": rng.weighted([("inproc", 6), ("forked", 4)]), "sched": c03.gen_sched(rng.sub("pool"))}
+    return {"z": z, "heap": heap, "entropy": rng.randrange(2 ** 62), "pool": pool, "steps": steps}
 
 
 def sample_view(plan):
@@ -203,6 +205,8 @@ def _content(cat, z, fill):
         return a
     if cat == "cplx2d":
         return rs.normal(size=(N, N)) + 1j * rs.normal(size=(N, N))
+    if cat == "cplx3d":
+        return rs.normal(size=(K, N, N)) + 1j * rs.normal(size=(K, N, N))
     if cat == "vec_inc":
         return numpy.cumsum(rs.uniform(100, 2000, M))
     if cat == "vec_pos":
@@ -247,6 +251,26 @@ def build_array(spec, z, heap_arrays):
     if spec.get("ro"):
         a.setflags(write=False)
     return a
+
+
+def ambient_state():
+    """process-global state a pure library call has no business changing (it would be hidden state that alters what
+    later, unrelated calls do): numpy's error handling and print options, the warnings filters, cwd, environment,
+    the two global random generators"""
+    import numpy
+    import warnings
+    po = dict(numpy.get_printoptions())
+    po.pop("formatter", None)
+    return {
+        "numpy.geterr": repr(sorted(numpy.geterr().items())),
+        "numpy.geterrcall": repr(numpy.geterrcall()),
+        "numpy.printoptions": repr(sorted(po.items())),
+        "warnings.filters": repr([(f[0], str(f[1]), getattr(f[2], "__name__", f[2]), str(f[3]), f[4]) for f in warnings.filters]),
+        "os.getcwd": os.getcwd(),
+        "os.environ": core.hbytes(repr(sorted(os.environ.items())).encode()),
+        "numpy.random global state": seams.np_global_digest(),
+        "python random state": seams.py_global_digest(),
+    }
 
 
 def snap(a):
@@ -516,6 +540,24 @@ def execute(plan, keep_log=False):
             out[k] = memo[id(a)]
         return out
 
+    # every pool the library creates (CovarianceMatrix with threads > 1) is a simulated one, for the whole program
+    kern = simpool.Kernel(res, None)
+    kern.__enter__()
+    kern.configure((plan.get("pool") or {}).get("sched"), (plan.get("pool") or {}).get("mode", "inproc"))
+    try:
+        _run_program(plan, res, log, z, specs, heap, snaps, used, last_user, seen, poison, versions, restore, check_heap, do_call, copies)
+    finally:
+        kern.__exit__(None, None, None)
+    poison.uninstall()
+    res.digest = log.digest()
+    res.sched_digest = log.full_digest()
+    if keep_log:
+        res.events = log.events
+    return res
+
+
+def _run_program(plan, res, log, z, specs, heap, snaps, used, last_user, seen, poison, versions, restore, check_heap, do_call, copies):
+    import numpy
     with seams.SimEnv(plan["entropy"]) as env:
         seams.reset_ambient(1)
         for si, st in enumerate(plan["steps"]):
@@ -593,11 +635,27 @@ def execute(plan, keep_log=False):
                 res.count("fault.poisoned_empty_armed")
             watched = [(label_of[i], heap[i], snaps[i]) for i in sorted(set(idx.values()))]
             hits0 = poison.hits
+            numpy.random.seed(st["amb"])
+            amb0 = ambient_state()
             r1, mon = do_call(e, A, S, st["amb"], st.get("poison"), watched)
+            amb1 = ambient_state()
+            for key in amb0:
+                if amb0[key] != amb1[key]:
+                    if key == "numpy.random global state" and (e["random"] or "global RNG" in (e.get("note") or "")):
+                        continue        # documented: optimal_grouping draws its restarts from the global generator
+                    res.violate("hidden-state", "C20:process-global-state-changed:%s:%s" % (fname, key),
+                                "%s(%s) changed %s (%s -> %s): process-wide state that alters what later, unrelated calls do"
+                                % (fname, S, key, str(amb0[key])[:80], str(amb1[key])[:80]), si)
+                    # put it back so that the rest of the program runs in the intended environment
+                    if key == "numpy.geterr":
+                        numpy.seterr(**dict(eval(amb0[key])))
+            res.count("oracle.ambient_state_compared")
             if poison.hits > hits0:
                 res.count("fault.poisoned_empty_fired", poison.hits - hits0)
             res.count("monitor.lines_observed", mon.lines)
             log.add(si, "call", st.get("c", 0), st["f"], sorted(idx.items()), result_digest(r1))
+            if not e["random"]:
+                res.step_results[str(st.get("k", si))] = result_digest(r1)
             changed_now = [i for i in sorted(set(idx.values())) if snap(heap[i]) != snaps[i]]
             if mon.first is not None and not changed_now:
                 lab, fn_, ln = mon.first
@@ -654,11 +712,6 @@ def execute(plan, keep_log=False):
                         pass
                 check_heap(si, fname, set(idx.values()), label_of)
         res.sim_time = env.advanced
-    poison.uninstall()
-    res.digest = log.digest()
-    if keep_log:
-        res.events = log.events
-    return res
 
 
 def result_digest(r):
@@ -740,6 +793,42 @@ def _uncanon(leaves):
             return [rd() for _ in range(int(l[1][3:]))]
         return l[1]
     return rd()
+
+
+def order_variants(plan):
+    """the program's calls (no re-allocation / refill / noise / batch steps, so every call sees the same inputs) in the
+    original order and in reverse order; a call's result must not depend on which calls ran before it"""
+    import copy
+    calls = []
+    for i, st in enumerate(plan["steps"]):
+        if "f" in st and st.get("op", "call") == "call":
+            c = dict(st)
+            c["k"] = i
+            calls.append(c)
+    if len(calls) < 2:
+        return None
+    a = copy.deepcopy(plan)
+    a["steps"] = calls
+    b = copy.deepcopy(plan)
+    b["steps"] = list(reversed(copy.deepcopy(calls)))
+    return [a, b]
+
+
+def order_ops(variants):
+    return [st["k"] for st in variants[0]["steps"]]
+
+
+def order_drop(variants, drop):
+    import copy
+    drop = set(drop)
+    out = []
+    for v in variants:
+        c = copy.deepcopy(v)
+        c["steps"] = [st for st in c["steps"] if st["k"] not in drop]
+        if len(c["steps"]) < 1:
+            return None
+        out.append(c)
+    return out
 
 
 def extra_stage(tier, base_seed, farm):
